@@ -667,7 +667,7 @@ func (c *caseT) minigoC(coqflags []string, out string) {
 	for _, n := range cp.Names {
 		if n == cp.Bad {
 			if emitted[n] {
-				c.mgTr[n] = "goose accepted a parameter with the name of its function"
+				c.mgTr[n] = "goose accepted a function it has to refuse (a parameter with the name of its function, or an assignment to a := variable)"
 			}
 		} else if !emitted[n] {
 			c.mgTr[n] = "function missing from the output"
